@@ -37,6 +37,7 @@ fn defs() -> Vec<CheckDef> {
         CheckDef { id: "C12", worker: checks::c12::worker, replay: None, crash_is_violation: true },
         CheckDef { id: "C11", worker: checks::c11::worker, replay: Some(checks::c11::replay), crash_is_violation: true },
         CheckDef { id: "C13", worker: checks::c13::worker, replay: Some(checks::c13::replay), crash_is_violation: true },
+        CheckDef { id: "C20", worker: checks::c20::worker, replay: Some(checks::c20::replay), crash_is_violation: true },
         CheckDef { id: "C02", worker: checks::c02::worker, replay: Some(checks::c02::replay), crash_is_violation: false },
         CheckDef { id: "C03", worker: checks::c03::worker, replay: Some(checks::c03::replay), crash_is_violation: false },
         CheckDef { id: "C04", worker: checks::c04::worker, replay: Some(checks::c04::replay), crash_is_violation: false },
